@@ -42,6 +42,11 @@ structure Inv (P0 : Name → Prop) (s : St) : Prop where
   ackHist : ∀ n, Ev.ack n ∈ s.trace → acked s n
   p0 : ∀ n, P0 n → acked s n
   trace : TraceOk P0 s.trace
+  /-- the stored state of every XR name is the newest entry of its history -/
+  xcur : ∀ n, s.xrs n ∈ s.xhist n
+  /-- an XR that is bound to another claim now has been so in every state the name ever had:
+  nobody but this controller creates XRs or sets a claimRef, and it only ever writes its own -/
+  xfor : ∀ n, foreignAt s n → ∀ ox ∈ s.xhist n, ∃ x, ox = some x ∧ x.cref = some .other
 
 /-- `s'` is a possible future of `s`: what a thread learnt in `s` and may still rely on in `s'` -/
 structure Fut (s s' : St) : Prop where
@@ -60,7 +65,7 @@ theorem Fut.acked {s s' : St} (h : Fut s s') {n : Name} (ha : acked s n) : acked
 /-- The guarantee: what must hold of a request at the instant it is applied. -/
 def G (s : St) : Req → Prop
   | .getClaim _ => True
-  | .getXR _ => True
+  | .getXR _ _ => True
   | .updClaimStatus _ => True
   | .updClaim c => ∃ v ∈ s.hist, v.rv = c.rv ∧ refExt v c
   | .upgradeXR n _ _ => ¬ foreignAt s n
@@ -109,6 +114,14 @@ theorem cur_mem {P0 : Name → Prop} {s : St} (hi : Inv P0 s) {c : Claim} (hc : 
   obtain ⟨t, ht⟩ := hi.cur c hc
   rw [ht]; exact List.mem_cons_self
 
+/-- a (possibly stale) read that shows XR `n` absent, unbound or bound to this claim proves that
+`n` is not bound to another claim now -/
+theorem not_foreign_of_hist {P0 : Name → Prop} {s : St} (hi : Inv P0 s) {n : Name} {ox : Option XR}
+    (hox : ox ∈ s.xhist n) (h : ∀ x, ox = some x → x.cref ≠ some .other) : ¬ foreignAt s n := by
+  intro hf
+  obtain ⟨x, hx, hc⟩ := hi.xfor n hf ox hox
+  exact h x hx hc
+
 /-! ### primitives preserve the invariant -/
 
 theorem inv_emit {P0 : Name → Prop} {s : St} (hi : Inv P0 s) (e : Ev)
@@ -128,6 +141,8 @@ theorem inv_emit {P0 : Name → Prop} {s : St} (hi : Inv P0 s) (e : Ev)
     · exact hi.ackHist n h
   p0 := hi.p0
   trace := ⟨hi.trace, h1, h2⟩
+  xcur := hi.xcur
+  xfor := hi.xfor
 
 theorem fut_emit (s : St) (e : Ev) : Fut s (emit s e) := ⟨fun _ h => h, fun _ h => h⟩
 
@@ -167,7 +182,8 @@ theorem inv_pushClaim {P0 : Name → Prop} {s : St} (hi : Inv P0 s) {cur c : Cla
     intro n ⟨v, hv, hr⟩
     exact ⟨v, List.mem_cons_of_mem _ hv, hr⟩
   refine
-    { rvLt := ?_, mono := ?_, cur := ?_, bound := ?_, ackd := ?_, ackHist := ?_, p0 := ?_, trace := ?_ }
+    { rvLt := ?_, mono := ?_, cur := ?_, bound := ?_, ackd := ?_, ackHist := ?_, p0 := ?_, trace := ?_,
+      xcur := hi.xcur, xfor := hi.xfor }
   · intro v hv
     simp only [pushClaim] at hv ⊢
     rcases List.mem_cons.mp hv with rfl | hv
@@ -239,7 +255,8 @@ theorem boundAt_putXR_iff (s : St) (n : Name) (x : XR) (m : Name) :
   · simp [h]
 
 theorem inv_putXR {P0 : Name → Prop} {s : St} (hi : Inv P0 s) (n : Name) (x : XR)
-    (hb : x.cref = some .self → acked s n) : Inv P0 (putXR s n x).1 where
+    (hb : x.cref = some .self → acked s n) (hfo : x.cref = some .other → foreignAt s n) :
+    Inv P0 (putXR s n x).1 where
   rvLt := fun v hv => by have := hi.rvLt v hv; simp only [putXR]; omega
   mono := hi.mono
   cur := hi.cur
@@ -252,6 +269,22 @@ theorem inv_putXR {P0 : Name → Prop} {s : St} (hi : Inv P0 s) (n : Name) (x : 
   ackHist := hi.ackHist
   p0 := hi.p0
   trace := hi.trace
+  xcur := fun m => by
+    simp only [putXR]
+    by_cases h : m = n
+    · simp [h]
+    · simp [h]; exact hi.xcur m
+  xfor := fun m hm ox hox => by
+    rw [foreignAt_putXR_iff] at hm
+    simp only [putXR] at hox
+    by_cases h : m = n
+    · subst h
+      simp at hm hox
+      rcases hox with rfl | hox
+      · exact ⟨_, rfl, hm⟩
+      · exact hi.xfor m (hfo hm) ox hox
+    · simp [h] at hm hox
+      exact hi.xfor m hm ox hox
 
 /-- rewriting XR `n` keeps every "not foreign" fact if the new content is not foreign-bound
 unless the old one was -/
@@ -264,7 +297,8 @@ theorem fut_putXR (s : St) (n : Name) (x : XR) (h : x.cref = some .other → for
     · simp [e] at hf; exact hm hf
 
 theorem inv_setXR {P0 : Name → Prop} {s : St} (hi : Inv P0 s) (n : Name) (ox : Option XR)
-    (hb : ∀ x, ox = some x → x.cref = some .self → acked s n) : Inv P0 (setXR s n ox) where
+    (hb : ∀ x, ox = some x → x.cref = some .self → acked s n)
+    (hfo : ∀ x, ox = some x → x.cref = some .other → foreignAt s n) : Inv P0 (setXR s n ox) where
   rvLt := hi.rvLt
   mono := hi.mono
   cur := hi.cur
@@ -277,6 +311,21 @@ theorem inv_setXR {P0 : Name → Prop} {s : St} (hi : Inv P0 s) (n : Name) (ox :
   ackHist := hi.ackHist
   p0 := hi.p0
   trace := hi.trace
+  xcur := fun m => by
+    simp only [setXR]
+    by_cases h : m = n
+    · simp [h]
+    · simp [h]; exact hi.xcur m
+  xfor := fun m ⟨x, hx, hc⟩ oy hoy => by
+    simp only [setXR] at hx hoy
+    by_cases h : m = n
+    · subst h
+      simp at hx hoy
+      rcases hoy with rfl | hoy
+      · exact ⟨x, hx, hc⟩
+      · exact hi.xfor m (hfo x hx hc) oy hoy
+    · simp [h] at hx hoy
+      exact hi.xfor m ⟨x, hx, hc⟩ oy hoy
 
 theorem fut_setXR (s : St) (n : Name) (ox : Option XR)
     (h : ∀ x, ox = some x → x.cref = some .other → foreignAt s n) : Fut s (setXR s n ox) where
@@ -310,12 +359,13 @@ theorem delete_core {P0 : Name → Prop} {s : St} (hi : Inv P0 s) {n : Name} {x 
   by_cases h1 : x1.fin = true
   · by_cases h2 : x1.deleting = true
     · simp only [h1, h2, if_true]
-      exact ⟨inv_setXR hi n _ (fun y hy hcy => by have := Option.some.inj hy; subst this; exact hb hcy),
+      exact ⟨inv_setXR hi n _ (fun y hy hcy => by have := Option.some.inj hy; subst this; exact hb hcy)
+          (fun y hy hcy => by have := Option.some.inj hy; subst this; exact hf hcy),
         fut_setXR s n _ (fun y hy hcy => by have := Option.some.inj hy; subst this; exact hf hcy)⟩
     · simp only [h1, h2, if_true]
-      exact ⟨inv_putXR hi n _ (fun h => hb h), fut_putXR s n _ (fun h => hf h)⟩
+      exact ⟨inv_putXR hi n _ (fun h => hb h) (fun h => hf h), fut_putXR s n _ (fun h => hf h)⟩
   · simp only [h1]
-    exact ⟨inv_setXR hi n none (fun y hy => by cases hy), fut_setXR s n none (fun y hy => by cases hy)⟩
+    exact ⟨inv_setXR hi n none (fun y hy => by cases hy) (fun y hy => by cases hy), fut_setXR s n none (fun y hy => by cases hy)⟩
 
 theorem exec_inv_fut {P0 : Name → Prop} {s : St} (hi : Inv P0 s) (r : Req) (hg : G s r) :
     Inv P0 (exec s r).1 ∧ Fut s (exec s r).1 := by
@@ -325,7 +375,7 @@ theorem exec_inv_fut {P0 : Name → Prop} {s : St} (hi : Inv P0 s) (r : Req) (hg
     split
     · exact ⟨hi, Fut.refl s⟩
     · split <;> exact ⟨hi, Fut.refl s⟩
-  | getXR n =>
+  | getXR n sel =>
     simp only [exec]
     split <;> exact ⟨hi, Fut.refl s⟩
   | updClaim c =>
@@ -369,7 +419,7 @@ theorem exec_inv_fut {P0 : Name → Prop} {s : St} (hi : Inv P0 s) (r : Req) (hg
         · exact ⟨hi, Fut.refl s⟩
         · have hnf : x.foreign = false := foreign_false_of_not hx hg
           have hb : x.cref = some .self → acked s n := fun h => hi.bound n ⟨x, hx, h⟩
-          refine ⟨inv_emit (inv_putXR hi n x hb) _ (fun m h => by cases h) (fun m h => ?_) (fun m h => by cases h),
+          refine ⟨inv_emit (inv_putXR hi n x hb (fun h => ⟨x, hx, h⟩)) _ (fun m h => by cases h) (fun m h => ?_) (fun m h => by cases h),
             (fut_putXR s n x (fun h => ⟨x, hx, h⟩)).trans (fut_emit _ _)⟩
           rw [hnf] at h; cases h
   | deleteXR n fg =>
@@ -390,7 +440,7 @@ theorem exec_inv_fut {P0 : Name → Prop} {s : St} (hi : Inv P0 s) (r : Req) (hg
       split
       · exact ⟨hi, Fut.refl s⟩
       · have hack : acked s n := hg
-        refine ⟨inv_emit (inv_putXR hi n newXR (fun _ => hack)) _ ?_ (fun m h => by cases h) (fun m h => by cases h),
+        refine ⟨inv_emit (inv_putXR hi n newXR (fun _ => hack) (fun h => by cases h)) _ ?_ (fun m h => by cases h) (fun m h => by cases h),
           (fut_putXR s n newXR (fun h => by cases h)).trans (fut_emit _ _)⟩
         intro m hm
         cases hm
@@ -404,7 +454,7 @@ theorem exec_inv_fut {P0 : Name → Prop} {s : St} (hi : Inv P0 s) (r : Req) (hg
       have hnf : x.foreign = false := foreign_false_of_not hx hnfa
       have key : Inv P0 (emit (putXR s n (bindXR x)).1 (.xrWrite n x.foreign)) ∧
           Fut s (emit (putXR s n (bindXR x)).1 (.xrWrite n x.foreign)) :=
-        ⟨inv_emit (inv_putXR hi n (bindXR x) (fun _ => hack)) _ (fun m h => by cases h)
+        ⟨inv_emit (inv_putXR hi n (bindXR x) (fun _ => hack) (fun h => by cases h)) _ (fun m h => by cases h)
             (fun m h => by rw [hnf] at h; cases h) (fun m h => by cases h),
           (fut_putXR s n (bindXR x) (fun h => by cases h)).trans (fut_emit _ _)⟩
       repeat' split
@@ -413,14 +463,14 @@ theorem exec_inv_fut {P0 : Name → Prop} {s : St} (hi : Inv P0 s) (r : Req) (hg
     simp only [exec]
     obtain ⟨hack, hnfa⟩ := hg
     split
-    · refine ⟨inv_emit (inv_putXR hi n newXR (fun _ => hack)) _ ?_ (fun m h => by cases h) (fun m h => by cases h),
+    · refine ⟨inv_emit (inv_putXR hi n newXR (fun _ => hack) (fun h => by cases h)) _ ?_ (fun m h => by cases h) (fun m h => by cases h),
         (fut_putXR s n newXR (fun h => by cases h)).trans (fut_emit _ _)⟩
       intro m hm
       cases hm
       exact hi.ackd n hack
     · rename_i x hx
       have hnf : x.foreign = false := foreign_false_of_not hx hnfa
-      refine ⟨inv_emit (inv_putXR hi n (bindXR x) (fun _ => hack)) _ (fun m h => by cases h) (fun m h => ?_) (fun m h => by cases h),
+      refine ⟨inv_emit (inv_putXR hi n (bindXR x) (fun _ => hack) (fun h => by cases h)) _ (fun m h => by cases h) (fun m h => ?_) (fun m h => by cases h),
         (fut_putXR s n (bindXR x) (fun h => by cases h)).trans (fut_emit _ _)⟩
       rw [hnf] at h; cases h
 
@@ -429,24 +479,30 @@ theorem exec_inv_fut {P0 : Name → Prop} {s : St} (hi : Inv P0 s) (r : Req) (hg
 theorem env_inv_fut {P0 : Name → Prop} {s s' : St} (hi : Inv P0 s) (he : Env s s') : Inv P0 s' ∧ Fut s s' := by
   cases he with
   | xrWrite n x x' hx hc =>
-    exact ⟨inv_putXR hi n x' (fun h => hi.bound n ⟨x, hx, hc ▸ h⟩), fut_putXR s n x' (fun h => ⟨x, hx, hc ▸ h⟩)⟩
+    exact ⟨inv_putXR hi n x' (fun h => hi.bound n ⟨x, hx, hc ▸ h⟩) (fun h => ⟨x, hx, hc ▸ h⟩),
+      fut_putXR s n x' (fun h => ⟨x, hx, hc ▸ h⟩)⟩
   | xrRemove n =>
-    exact ⟨inv_setXR hi n none (fun y hy => by cases hy), fut_setXR s n none (fun y hy => by cases hy)⟩
+    exact ⟨inv_setXR hi n none (fun y hy => by cases hy) (fun y hy => by cases hy), fut_setXR s n none (fun y hy => by cases hy)⟩
   | claimWrite c c' hc href =>
     exact ⟨inv_pushClaim_same hi hc href, fut_pushClaim _ _⟩
   | claimGone =>
     refine ⟨{ rvLt := hi.rvLt, mono := hi.mono, cur := fun c h => (by cases h), bound := hi.bound, ackd := hi.ackd,
-              ackHist := hi.ackHist, p0 := hi.p0, trace := hi.trace }, ⟨fun _ h => h, fun _ h => h⟩⟩
+              ackHist := hi.ackHist, p0 := hi.p0, trace := hi.trace, xcur := hi.xcur, xfor := hi.xfor },
+      ⟨fun _ h => h, fun _ h => h⟩⟩
 
 /-- the scripted environment actions of the harness are environment steps (or no-ops) -/
 theorem applyEnv_env (s : St) (a : EnvAct) : applyEnv s a = s ∨ Env s (applyEnv s a) := by
   cases a with
-  | xrTouch n =>
+  | xrTouch n g =>
     simp only [applyEnv]
     split
     · rename_i x hx; exact Or.inr (Env.xrWrite s n x _ hx rfl)
     · exact Or.inl rfl
-  | xrRemove n => exact Or.inr (Env.xrRemove s n)
+  | xrRemove n =>
+    simp only [applyEnv]
+    split
+    · exact Or.inr (Env.xrRemove s n)
+    · exact Or.inl rfl
   | xrDelete n =>
     simp only [applyEnv]
     split
